@@ -512,7 +512,11 @@ class StmtMixin:
                         b = _base_name(n.func.value)
                         if b:
                             if len(b) == 1:
-                                names.add(b[0])
+                                # a method call mutates only containers and declared objects; opaque values are
+                                # immutable in the model (their attributes are functions of the value)
+                                v = st.env.get(b[0])
+                                if v is None or isinstance(v.s, (Seq, SetS, MapS, Tup, Obj, Opt)) or v.s in (POLY_LIST, POLY_SET, POLY_DICT):
+                                    names.add(b[0])
                             else:
                                 fields.add(b)
                     contracts.append(n)
@@ -696,7 +700,7 @@ class StmtMixin:
             body_st, exit_st = self.branch(h, i < n)
             if body_st is not None:
                 x = elem_of(i, body_st)
-                if seqv is not None and isinstance(seqv.s, Seq) and self.folds_for(seqv.s):
+                if seqv is not None and isinstance(seqv.s, Seq):
                     p0_ = self.fresh(seqv.s, "before", None)
                     rest_ = self.fresh(seqv.s, "after", None)
                     body_st.assume(p0_.t == z3.SubSeq(seqv.t, 0, i.t))
